@@ -109,6 +109,35 @@ Proof.
   intros k H. cbn in H. repeat (destruct H as [H|H]; [discriminate H|]). destruct H.
 Qed.
 
-(* C18_invitation_once *)
-Example ex_invites : option_map cb_inv (exec [LDeliver (Invite 4); LDeliver Other; LDeliver (Invite 9); LDeliver (Invite 4)]) = Some [4; 9; 4].
+(* ... the same presence with a payload that does not decode: ignored for address 7, fatal for the
+   managed address 0 (hypotheses of C18_managed_bad_payload_ends_serve) *)
+Example ex_bad_payload_unjoined :
+  option_map srv (exec (ex_join_error ++ [LDeliver (PresBad 7); LDeliver (PresAvail 7); LCall 1 KJoin 7])) = Some SIdle.
 Proof. vm_compute. reflexivity. Qed.
+Example hyp_bad_payload_managed : exists s, exec ex_join_error = Some s /\ srv s = SIdle /\ ch_entry (chans s 0) = true.
+Proof. eexists. split; [vm_compute; reflexivity|]. split; reflexivity. Qed.
+Example ex_bad_payload_managed :
+  option_map srv (exec (ex_join_error ++ [LDeliver (PresBad 0)])) = Some SDead /\
+  exec (ex_join_error ++ [LDeliver (PresBad 0); LDeliver Other]) = None.
+Proof. vm_compute. split; reflexivity. Qed.
+
+(* C18_invitation_once_partial: invitations with the customary extra children (legacy
+   jabber:x:conference x, delay, body), a declined invitation, a status notification; every
+   message has at most one muc#user payload *)
+Definition ex_msgs : list label :=
+  [LDeliver (Msg [CInvite 4]); LDeliver Other; LDeliver (Msg [COther; CInvite 9; CForeignX]);
+   LDeliver (Msg [CForeignX; CForeignX; CInvite 4; COther]); LDeliver (Msg [CUserX; CForeignX]);
+   LDeliver (Msg [CForeignX]); LDeliver (Msg [])].
+Example ex_invites : option_map cb_inv (exec ex_msgs) = Some [4; 9; 4] /\ invites_of ex_msgs = [4; 9; 4].
+Proof. vm_compute. split; reflexivity. Qed.
+Example hyp_single_payload : forall cs, In (LDeliver (Msg cs)) ex_msgs -> single_payload cs.
+Proof.
+  intros cs H. cbn in H. unfold single_payload.
+  repeat (destruct H as [H|H]; [try discriminate H; injection H as <-; cbn; auto|]). destruct H.
+Qed.
+(* what the refuted full statement is about: two muc#user payloads in one message *)
+Example ex_two_payloads :
+  option_map cb_inv (exec [LDeliver (Msg [CInvite 1; CInvite 2])]) = Some [2; 2] /\
+  option_map cb_inv (exec [LDeliver (Msg [CInvite 1; CUserX])]) = Some [] /\
+  option_map cb_inv (exec [LDeliver (Msg [CUserX; CInvite 1])]) = Some [1; 1].
+Proof. vm_compute. repeat split; reflexivity. Qed.
